@@ -33,8 +33,8 @@ CONF = dict(
                 'the model is tied to client_ip.go / validation.go / nts.go by replaying generated histories on the real client over loopback sockets every run and comparing '
                 'per-exchange outcome, combined timestamps, offsets and request fields; the oracle is evaluated on the implementation\'s observations'),
     level_note=('Trusted: Coq kernel, hand-written model validated by the correspondence run, extraction, harness (scripted peer, independent NTS field walker, miscreant). '
-                'Crypto symbolic. DEFECT D-C05a (C05_scion_allfail_refuted, case kind scion.allfail): MeasureClockOffsetSCION returns offset 0 with a nil error when every exchange of its '
-                'client failed; the kind scion.hist passes over exactly that return value, scion.allfail checks it strictly and fails on the current tree. No axioms.'),
+                'Crypto symbolic. D-C05a (MeasureClockOffsetSCION returned offset 0 with a nil error when every exchange of its client failed) is fixed in /repo by 3dfc5bf; '
+                'C05_scion_allfail_pinned_refuted keeps the witness for the old return value and the case kind scion.allfail replays it on every run. No axioms.'),
     explanation=('oracle: an exchange that reports the four timestamps must have been delivered a datagram from the server address with >= 48 bytes, origin = the request\'s '
                  'transmit field (or receive field of an interleaved request), leap != 3, version 3|4, mode 4, stratum 1..15, with NTS the request\'s unique identifier and a '
                  'valid AEAD tag under the S2C key, whose transmit/receive fields are the reported t2/t1 with t1 <= t2; a returned offset is that of an accepted exchange'),
